@@ -8,19 +8,20 @@ import (
 	"verif/harness/astx"
 	"verif/harness/enum"
 	"verif/harness/gen"
+	"verif/harness/reftok"
 	"verif/harness/run"
 )
 
 func init() { register("C08", "exploration", c08Main, c08Replay) }
 
 var lexA = []string{"T", "|", "where", "project", "summarize", "join", "render", "with", "on", "by", "let", "as", "kind", "a", "1", "'x'",
-	"(", ")", "[", "]", ",", "=", "==", "-", "in", ";", ".", "!"}
+	"(", ")", "[", "]", ",", "=", "==", "-", "in", ";", ".", "!", "`q r`"}
 var lexB = []string{"T", "|", "sort", "by", "a", "asc", "desc", "nulls", "first", "last", "take", "top", "1", "1.5", ",", "count", "extend", "=",
 	"summarize", "(", ")", ";"}
 
 // tokenSweeps enumerates all space-separated lexeme sequences up to the tier's
 // length over the two alphabets and calls fn on every source text.
-var lexC = []string{"a", "f", "(", ")", "[", "]", ",", "=", "1", "in", "-", ".", "by"}
+var lexC = []string{"a", "f", "(", ")", "[", "]", ",", "=", "1", "in", "-", ".", "by", "`q r`"}
 var lexCPrefixes = []string{"T | where ", "T | summarize ", "T | extend x = ", "T | join ( R ) on "}
 
 func tokenSweeps(r *run.Runner, quickL, thoroughL int, fn func(w *run.Worker, src string)) map[string]any {
@@ -91,7 +92,19 @@ func corruptionLexemes() []string {
 
 // corruptionSweep applies every single-token edit (thorough: every pair of edits on
 // a sub-corpus) to every corpus program and calls fn on each result.
-func corruptionSweep(r *run.Runner, fn func(w *run.Worker, src string)) map[string]any {
+// corruptionSeps are the separators the corrupted lexeme lists are joined with.
+var corruptionSeps = []string{" "}
+
+func corruptionSweep(r *run.Runner, fn0 func(w *run.Worker, src string)) map[string]any {
+	fn := func(w *run.Worker, lexemes string) {
+		for _, sep := range corruptionSeps {
+			if sep == " " {
+				fn0(w, lexemes)
+			} else {
+				fn0(w, strings.ReplaceAll(lexemes, " ", sep))
+			}
+		}
+	}
 	corpus := gen.Programs()
 	ins := corruptionLexemes()
 	edits := func(lex []string, emit func([]string)) {
@@ -104,6 +117,14 @@ func corruptionSweep(r *run.Runner, fn func(w *run.Worker, src string)) map[stri
 				t := append([]string{}, lex...)
 				t[i], t[i+1] = t[i+1], t[i]
 				emit(t) // transposition
+			}
+		}
+		for i := 0; i < n; i++ {
+			// replacement of a token by a malformed or foreign lexeme
+			for _, x := range []string{"1e-", "1e", "0x", "1.5.", "'unterminated", "`q", "!", "`q r`", "$left", "1", "by", "("} {
+				t := append([]string{}, lex...)
+				t[i] = x
+				emit(t)
 			}
 		}
 		for g := 0; g <= n; g++ {
@@ -486,6 +507,18 @@ func c08One(w *run.Worker, src string) {
 	}
 	if len(toks) >= 2 {
 		w.Nontrivial()
+	}
+	// an accepted source must consist of well-formed lexemes only (independent tokenizer)
+	ref := reftok.Scan(src)
+	for i, rt := range ref {
+		if rt.Kind == reftok.Error {
+			w.Fail("accept:malformed-lexeme", src, fmt.Sprintf("Parse accepted a source whose piece %q at [%d,%d) is not a lexeme of the language", src[rt.Start:rt.End], rt.Start, rt.End), nil)
+			return
+		}
+		if i >= len(toks) || toks[i].Span.Start != rt.Start || toks[i].Span.End != rt.End {
+			w.Fail("accept:malformed-lexeme", src, fmt.Sprintf("Parse accepted a source that the reference tokenizer splits differently at offset %d (lexeme %q)", rt.Start, src[rt.Start:rt.End]), nil)
+			return
+		}
 	}
 	// group source tokens by statement
 	var groups [][]parser.Token
